@@ -36,6 +36,7 @@ vmod!(base, "base.rs");
 pub(crate) use base::*;
 vmod!(c21_alu, "c21_alu.rs");
 vmod!(flow, "c25_flow.rs");
+vmod!(memops, "c24_mem_ops.rs");
 
 /// Counterexample replay (lib/replay.py): generated concrete-playback tests.
 #[cfg(verif_playback)]
